@@ -28,50 +28,139 @@ impl RecResolvable for Else
 	open spec fn rec_errs(self) -> Seq<Error> { stmt_errs(*self.branch) }
 	open spec fn rec_poisoned(self) -> bool { stmt_poisoned(*self.branch) }
 	open spec fn rec_resolves_to(self, x: Self::Item) -> bool { stmt_resolves_to(*self.branch, *x) }
-	fn rec_resolve(self) -> (r: Result<Self::Item, Errors>) { Resolvable::resolve(self) }
+	fn rec_resolve(self) -> (r: Result<Self::Item, Errors>)
+	{
+		// (ghost) the four definitions above, said once: Verus does not reliably unfold them by itself when two traits of the
+		// same shape are in the file
+		proof {
+			assert(self.rec_pre() == Resolvable::pre(self));
+			assert(self.rec_errs() == Resolvable::errs(self));
+			assert(self.rec_poisoned() == Resolvable::poisoned(self));
+			assert forall|x: Self::Item| self.rec_resolves_to(x) == Resolvable::resolves_to(self, x) by { }
+		}
+		Resolvable::resolve(self)
+	}
 }
 impl RecResolvable for Identifier
 {
-	type Item = <Identifier as Resolvable>::Item;
+	type Item = resolved::Identifier;
 	open spec fn rec_pre(self) -> bool { Resolvable::pre(self) }
 	open spec fn rec_errs(self) -> Seq<Error> { Resolvable::errs(self) }
 	open spec fn rec_poisoned(self) -> bool { Resolvable::poisoned(self) }
 	open spec fn rec_resolves_to(self, x: Self::Item) -> bool { Resolvable::resolves_to(self, x) }
-	fn rec_resolve(self) -> (r: Result<Self::Item, Errors>) { Resolvable::resolve(self) }
+	fn rec_resolve(self) -> (r: Result<Self::Item, Errors>)
+	{
+		// (ghost) the four definitions above, said once: Verus does not reliably unfold them by itself when two traits of the
+		// same shape are in the file
+		proof {
+			assert(self.rec_pre() == Resolvable::pre(self));
+			assert(self.rec_errs() == Resolvable::errs(self));
+			assert(self.rec_poisoned() == Resolvable::poisoned(self));
+			assert forall|x: Self::Item| self.rec_resolves_to(x) == Resolvable::resolves_to(self, x) by { }
+		}
+		Resolvable::resolve(self)
+	}
 }
+// induction hypothesis for the self-recursive `Resolvable for ValueType` (recursion through Box<ValueType>), as for Statement
 impl RecResolvable for ValueType
 {
-	type Item = <ValueType as Resolvable>::Item;
-	open spec fn rec_pre(self) -> bool { Resolvable::pre(self) }
-	open spec fn rec_errs(self) -> Seq<Error> { Resolvable::errs(self) }
-	open spec fn rec_poisoned(self) -> bool { Resolvable::poisoned(self) }
-	open spec fn rec_resolves_to(self, x: Self::Item) -> bool { Resolvable::resolves_to(self, x) }
-	fn rec_resolve(self) -> (r: Result<Self::Item, Errors>) { Resolvable::resolve(self) }
+	type Item = resolved::ValueType;
+	open spec fn rec_pre(self) -> bool { vt_pre(self) }
+	open spec fn rec_errs(self) -> Seq<Error> { Seq::empty() }
+	open spec fn rec_poisoned(self) -> bool { false }
+	open spec fn rec_resolves_to(self, x: Self::Item) -> bool { vt_resolves_to(self, x) }
+	#[verifier::external_body]
+	fn rec_resolve(self) -> (r: Result<Self::Item, Errors>) { unimplemented!() }
 }
+// induction hypothesis for the Expression cluster (Expression <-> Box / Vec<Expression>, Reference -> ReferenceStep -> Expression,
+// MemberExpression -> Expression).  The three other impls of the cluster are REAL and reach an expression only through this mirror.
 impl RecResolvable for Expression
 {
-	type Item = <Expression as Resolvable>::Item;
-	open spec fn rec_pre(self) -> bool { Resolvable::pre(self) }
-	open spec fn rec_errs(self) -> Seq<Error> { Resolvable::errs(self) }
-	open spec fn rec_poisoned(self) -> bool { Resolvable::poisoned(self) }
-	open spec fn rec_resolves_to(self, x: Self::Item) -> bool { Resolvable::resolves_to(self, x) }
-	fn rec_resolve(self) -> (r: Result<Self::Item, Errors>) { Resolvable::resolve(self) }
+	type Item = resolved::Expression;
+	open spec fn rec_pre(self) -> bool { expr_pre(self) }
+	open spec fn rec_errs(self) -> Seq<Error> { expr_errs(self) }
+	open spec fn rec_poisoned(self) -> bool { expr_poisoned(self) }
+	open spec fn rec_resolves_to(self, x: Self::Item) -> bool { true }
+	#[verifier::external_body]
+	fn rec_resolve(self) -> (r: Result<Self::Item, Errors>) { unimplemented!() }
 }
 impl RecResolvable for Reference
 {
-	type Item = <Reference as Resolvable>::Item;
+	type Item = resolved::Reference;
 	open spec fn rec_pre(self) -> bool { Resolvable::pre(self) }
 	open spec fn rec_errs(self) -> Seq<Error> { Resolvable::errs(self) }
 	open spec fn rec_poisoned(self) -> bool { Resolvable::poisoned(self) }
 	open spec fn rec_resolves_to(self, x: Self::Item) -> bool { Resolvable::resolves_to(self, x) }
-	fn rec_resolve(self) -> (r: Result<Self::Item, Errors>) { Resolvable::resolve(self) }
+	fn rec_resolve(self) -> (r: Result<Self::Item, Errors>)
+	{
+		// (ghost) the four definitions above, said once: Verus does not reliably unfold them by itself when two traits of the
+		// same shape are in the file
+		proof {
+			assert(self.rec_pre() == Resolvable::pre(self));
+			assert(self.rec_errs() == Resolvable::errs(self));
+			assert(self.rec_poisoned() == Resolvable::poisoned(self));
+			assert forall|x: Self::Item| self.rec_resolves_to(x) == Resolvable::resolves_to(self, x) by { }
+		}
+		Resolvable::resolve(self)
+	}
+}
+impl RecResolvable for ReferenceStep
+{
+	type Item = resolved::ReferenceStep;
+	open spec fn rec_pre(self) -> bool { Resolvable::pre(self) }
+	open spec fn rec_errs(self) -> Seq<Error> { Resolvable::errs(self) }
+	open spec fn rec_poisoned(self) -> bool { Resolvable::poisoned(self) }
+	open spec fn rec_resolves_to(self, x: Self::Item) -> bool { Resolvable::resolves_to(self, x) }
+	fn rec_resolve(self) -> (r: Result<Self::Item, Errors>)
+	{
+		// (ghost) the four definitions above, said once: Verus does not reliably unfold them by itself when two traits of the
+		// same shape are in the file
+		proof {
+			assert(self.rec_pre() == Resolvable::pre(self));
+			assert(self.rec_errs() == Resolvable::errs(self));
+			assert(self.rec_poisoned() == Resolvable::poisoned(self));
+			assert forall|x: Self::Item| self.rec_resolves_to(x) == Resolvable::resolves_to(self, x) by { }
+		}
+		Resolvable::resolve(self)
+	}
+}
+impl RecResolvable for MemberExpression
+{
+	type Item = resolved::MemberExpression;
+	open spec fn rec_pre(self) -> bool { Resolvable::pre(self) }
+	open spec fn rec_errs(self) -> Seq<Error> { Resolvable::errs(self) }
+	open spec fn rec_poisoned(self) -> bool { Resolvable::poisoned(self) }
+	open spec fn rec_resolves_to(self, x: Self::Item) -> bool { Resolvable::resolves_to(self, x) }
+	fn rec_resolve(self) -> (r: Result<Self::Item, Errors>)
+	{
+		// (ghost) the four definitions above, said once: Verus does not reliably unfold them by itself when two traits of the
+		// same shape are in the file
+		proof {
+			assert(self.rec_pre() == Resolvable::pre(self));
+			assert(self.rec_errs() == Resolvable::errs(self));
+			assert(self.rec_poisoned() == Resolvable::poisoned(self));
+			assert forall|x: Self::Item| self.rec_resolves_to(x) == Resolvable::resolves_to(self, x) by { }
+		}
+		Resolvable::resolve(self)
+	}
 }
 impl RecResolvable for Comparison
 {
-	type Item = <Comparison as Resolvable>::Item;
+	type Item = resolved::Comparison;
 	open spec fn rec_pre(self) -> bool { Resolvable::pre(self) }
 	open spec fn rec_errs(self) -> Seq<Error> { Resolvable::errs(self) }
 	open spec fn rec_poisoned(self) -> bool { Resolvable::poisoned(self) }
 	open spec fn rec_resolves_to(self, x: Self::Item) -> bool { Resolvable::resolves_to(self, x) }
-	fn rec_resolve(self) -> (r: Result<Self::Item, Errors>) { Resolvable::resolve(self) }
+	fn rec_resolve(self) -> (r: Result<Self::Item, Errors>)
+	{
+		// (ghost) the four definitions above, said once: Verus does not reliably unfold them by itself when two traits of the
+		// same shape are in the file
+		proof {
+			assert(self.rec_pre() == Resolvable::pre(self));
+			assert(self.rec_errs() == Resolvable::errs(self));
+			assert(self.rec_poisoned() == Resolvable::poisoned(self));
+			assert forall|x: Self::Item| self.rec_resolves_to(x) == Resolvable::resolves_to(self, x) by { }
+		}
+		Resolvable::resolve(self)
+	}
 }
